@@ -107,32 +107,18 @@ theorem C12_millerRabin_iff_strongProbablePrime (a n : Nat) (ha : 2 ≤ a) (han 
 example : millerRabin 2 2047 = W.ok .probablyPrime := by decide        -- the smallest strong pseudoprime to base 2
 example : millerRabin 3 2047 = W.ok .composite := by decide
 
-/-- `is_perfect_square` full statement — FALSE on the code: `curr * curr` wraps for `curr ≥ 2^32`. -/
-def C12_isPerfectSquare_full : Prop :=
-  ∀ n : Nat, n < 2 ^ 64 → ((isPerfectSquare n).val = true ↔ ∃ r, r * r = n)
+/-- `is_perfect_square(n)` (after fix F19: `n / curr == curr && n % curr == 0`) is exact for every
+64-bit `n`, with no wrap-around, no division by zero, and within fuel: the Newton iteration from
+`n / 2` stays at or above `⌊√n⌋` (integer AM–GM) and strictly decreases while above it. -/
+theorem C12_isPerfectSquare_spec (n : Nat) (hn : n < 2 ^ 64) :
+    (isPerfectSquare n = W.ok true ↔ ∃ k, k * k = n) ∧ (isPerfectSquare n = W.ok false ↔ ¬ ∃ k, k * k = n) := by
+  have h := isPerfectSquare_spec' n (M_eq ▸ hn)
+  rw [h, Nat.exists_mul_self]
+  by_cases hs : Nat.sqrt n * Nat.sqrt n = n <;> simp [hs]
 
-theorem C12_isPerfectSquare_counterexample : ¬ C12_isPerfectSquare_full := by
-  intro h
-  have h1 : (isPerfectSquare 17179869188).val = true := by decide
-  obtain ⟨r, hr⟩ := (h 17179869188 (by decide)).1 h1
-  have h2 : r < 131073 := by
-    by_contra hc
-    have : 131073 * 131073 ≤ r * r := Nat.mul_le_mul (by omega) (by omega)
-    omega
-  have h3 : 131072 < r := by
-    by_contra hc
-    have : r * r ≤ 131072 * 131072 := Nat.mul_le_mul (by omega) (by omega)
-    omega
-  omega
-
-/-- What survives (`_partial`): whenever `is_perfect_square` answers `true` on an execution in which no
-`curr * curr` wrapped, `n` is a perfect square. -/
-theorem C12_isPerfectSquare_partial (n : Nat) (hv : (isPerfectSquare n).val = true)
-    (hw : (isPerfectSquare n).wrapped = false) : ∃ r, r * r = n :=
-  isPerfectSquare_sound n hv hw
-
-example : (isPerfectSquare 18446744030759878681).val = true ∧ (isPerfectSquare 18446744030759878681).wrapped = true := by decide +kernel
-example : isPerfectSquare 1000000 = W.ok true := by decide
+example : isPerfectSquare 17179869188 = W.ok false := by decide +kernel          -- 2^34 + 4: wrongly `true` before F19
+example : isPerfectSquare 18446744030759878681 = W.ok true := by decide +kernel  -- (2^32 - 5)^2
+example : isPerfectSquare 10785637507345693793 = W.ok false := by decide +kernel
 
 /-! ### find_prime_factor (factoring.hh) and the FirstPrimes table -/
 
@@ -196,28 +182,24 @@ theorem C12_magMul_value (a b : NatMag) : NatMag.value (magMul a b) = NatMag.val
 example : magMul [(2, 2), (3, 1)] [(2, 1), (3, 2)] = [(2, 3), (3, 3)] := by decide
 example : (magOfNat {} Generated.firstPrimes 360).val = .mag [(2, 3), (3, 2), (5, 1)] := by decide +kernel
 
-/-! ### is_prime: the full statement is FALSE on the code (finding) -/
+/-! ### is_prime -/
 
-/-- "For every 64-bit n the primality test answers 'prime' exactly when n is prime." -/
+/-- "For every 64-bit n the primality test answers 'prime' exactly when n is prime."  NOT proved:
+"accepted ⇒ prime" is `BPSWSound` (the published exhaustive computation), and "prime ⇒ accepted"
+needs the theory of the strong Lucas test for primes, which Mathlib does not have.  Covered by the
+correspondence (sieve sweep + adversarial sets).  No counterexample is known on the fixed tree. -/
 def C12_isPrime_full (fu : Fuel) : Prop :=
   ∀ n : Nat, n < 2 ^ 64 → ((isPrime fu n).val = true ↔ Nat.Prime n)
 
-/-- `is_perfect_square(10785637507345693793)` returns `true`: its 10th Newton iterate
-`c = 5266424564134321` satisfies `c * c ≡ n (mod 2^64)`, and `curr * curr` is computed in `uint64_t`.
-So `strong_lucas` answers COMPOSITE — but the number is prime (Lucas/Pratt certificate checked in
-Lean with the verified `powMod`). -/
-theorem C12_isPerfectSquare_prime_counterexample :
-    (isPerfectSquare 10785637507345693793).val = true ∧ (isPerfectSquare 10785637507345693793).wrapped = true ∧
-      Nat.Prime 10785637507345693793 :=
-  ⟨by decide +kernel, by decide +kernel, prime_10785637507345693793⟩
+/-- Regression guard for finding F19 (fixed): before the fix `is_perfect_square(10785637507345693793)`
+answered `true` (its 10th Newton iterate `c = 5266424564134321` has `c * c ≡ n (mod 2^64)`), so
+`is_prime` rejected this prime.  The number is prime (Lucas/Pratt certificate checked in Lean with
+the verified `powMod`), and the model of the fixed code accepts it, cleanly. -/
+theorem C12_isPrime_regression_F19 :
+    Nat.Prime 10785637507345693793 ∧ isPrime {} 10785637507345693793 = W.ok true :=
+  ⟨prime_10785637507345693793, by decide +kernel⟩
 
-theorem C12_isPrime_counterexample : ¬ C12_isPrime_full {} := by
-  intro h
-  have h1 := (h 10785637507345693793 (by decide)).2 prime_10785637507345693793
-  revert h1
-  decide +kernel
-
-/-- What survives (`_partial`): the direction "accepted ⇒ prime" is the Baillie–PSW hypothesis
+/-- What is proved about `is_prime` itself: the direction "accepted ⇒ prime" is the Baillie–PSW hypothesis
 `BPSWSound` (not proved here); the Miller–Rabin half is exact (`C12_millerRabin_iff_strongProbablePrime`);
 and `is_prime` never accepts `n < 2` nor an even `n > 2`. -/
 theorem C12_isPrime_partial (fu : Fuel) (n : Nat) (h : (isPrime fu n).val = true) : 2 ≤ n ∧ (n = 2 ∨ n % 2 = 1) := by
